@@ -11,13 +11,20 @@
 (*          16 000); their adjusted weight (20 bytes per sigop) is far above their real weight                                  *)
 (*   13     two bare CHECKMULTISIG outputs (160 sigop cost)                                                                     *)
 (*   14     pays no fee (child of 7): only enters after PrioritiseTransaction; its modified fee is not part of any block reward *)
+(*   15..17 each pays a 9 BTC fee out of a 50 BTC base coin (coinbases of heights 9..12): one or two of them stay below 2^31    *)
+(*          satoshi in total, three reach 2.7 * 10^9 (between 2^31 and 2^32)                                                    *)
+(*   18     pays 45 BTC, a single fee above 2^32 satoshi; with 15..17 the total passes 2^32 (up to 72 BTC)                      *)
+(* Amounts are wide: [q, r] = q * 10^9 + r satoshi (V(q, r); plain integers below 2^31 through WV).                             *)
 EXTENDS Integers, Sequences
 F == [kind |-> "final", v |-> 0]
 NF == [kind |-> "disabled", v |-> 0]
 NoLock == [kind |-> "none", v |-> 0]
 NoMsig == [n |-> 0, v |-> 0]
 In(t, i, sq) == [op |-> <<t, i>>, seq |-> sq]
-Out(v) == [v |-> v, cls |-> "true"]
+V(q, r) == [q |-> q, r |-> r]
+WV(n) == [q |-> n \div 1000000000, r |-> n % 1000000000]
+Out(v) == [v |-> WV(v), cls |-> "true"]
+OutW(q, r) == [v |-> V(q, r), cls |-> "true"]
 Tx(ins, outs, lock) == [ins |-> ins, outs |-> outs, ver |-> 1, lock |-> lock, pad |-> 0, msig |-> NoMsig]
 TxM(ins, outs, n, v) == [ins |-> ins, outs |-> outs, ver |-> 1, lock |-> NoLock, pad |-> 0, msig |-> [n |-> n, v |-> v]]
 TxUDef == <<
@@ -34,10 +41,15 @@ TxUDef == <<
   TxM(<<In(0,6,F)>>, <<Out(700000)>>, 200, 600),                                \* 11: fee 180000, 16000 sigop cost
   TxM(<<In(0,7,F)>>, <<Out(700600)>>, 199, 600),                                \* 12: fee 180000, 15920 sigop cost
   TxM(<<In(0,8,F)>>, <<Out(998000)>>, 2, 600),                                  \* 13: fee 800, 160 sigop cost
-  Tx(<<In(7,1,F)>>, <<Out(999000)>>, NoLock)                                    \* 14: fee 0, child of 7
+  Tx(<<In(7,1,F)>>, <<Out(999000)>>, NoLock),                                   \* 14: fee 0, child of 7
+  Tx(<<In(0,9,F)>>, <<OutW(4, 100000000)>>, NoLock),                            \* 15: 50 BTC in, 41 BTC out: fee 9 BTC
+  Tx(<<In(0,10,F)>>, <<OutW(4, 100000000)>>, NoLock),                           \* 16: fee 9 BTC
+  Tx(<<In(0,11,F)>>, <<OutW(4, 100000000)>>, NoLock),                           \* 17: fee 9 BTC
+  Tx(<<In(0,12,F)>>, <<OutW(0, 500000000)>>, NoLock)                            \* 18: 50 BTC in, 5 BTC out: fee 45 BTC > 2^32 satoshi
 >>
-BaseDef == << [v |-> 1000000, h |-> 1], [v |-> 1000000, h |-> 2], [v |-> 1000000, h |-> 3], [v |-> 1000000, h |-> 4],
-              [v |-> 1000000, h |-> 5], [v |-> 1000000, h |-> 6], [v |-> 1000000, h |-> 7], [v |-> 1000000, h |-> 8] >>
+BaseDef == << [v |-> WV(1000000), h |-> 1], [v |-> WV(1000000), h |-> 2], [v |-> WV(1000000), h |-> 3], [v |-> WV(1000000), h |-> 4],
+              [v |-> WV(1000000), h |-> 5], [v |-> WV(1000000), h |-> 6], [v |-> WV(1000000), h |-> 7], [v |-> WV(1000000), h |-> 8],
+              [v |-> V(5, 0), h |-> 9], [v |-> V(5, 0), h |-> 10], [v |-> V(5, 0), h |-> 11], [v |-> V(5, 0), h |-> 12] >>
 H0Def == 148
 BaseDtDef == 512
 NoTx == {}
@@ -57,6 +69,11 @@ SigTx == {6, 11, 12, 13}
 MixTx == {1, 2, 3, 6, 9, 13, 14}
 MixInject == {8, 10}
 MixLists == {<<>>, <<6>>}
+\* scenario "huge": fee totals of one template below 2^31, between 2^31 and 2^32, above 2^32 satoshi, next to a normal fee;
+\* thorough: also across the subsidy halving and with a prioritisation
+HugeTx == {6, 15, 16, 17, 18}
+HugeLists == {<<>>}
+HugePrio == {<<15, 1000>>, <<16, -1000>>}
 ResQ == {2000}
 ResT == {2000, 8000}
 ====
